@@ -170,7 +170,11 @@ static void one_round(long r, const char* mname)
                 try {
                     if (a.kind == 'D') {
                         auto fn = [fid, thr, hold, shp, hook](Cell& c) { (void)functor_body(c, fid, thr, hold, shp, hook.get()); };
-                        if (fid % 2) dg->modify_detach(vrf::one_shot(fn));  // a value-category-sensitive callable, given as an rvalue
+                        if (fid % 4 == 2) {  // a named callable, given as an lvalue: the caller may use it again afterwards
+                            auto named = vrf::one_shot(fn);
+                            dg->modify_detach(named);
+                            vrf::still_usable(named);
+                        } else if (fid % 2) dg->modify_detach(vrf::one_shot(fn));  // a value-category-sensitive callable, given as an rvalue
                         else dg->modify_detach(fn);
                     } else if (a.kind == 'A') {
                         auto fn = [fid, thr, hold, shp, hook](Cell& c) { return functor_body(c, fid, thr, hold, shp, hook.get()); };
